@@ -46,9 +46,11 @@ func cells() []h2term.Cell {
 			}
 		}
 	}
-	for _, ev := range h2term.WriteBlockedEvents {
-		for _, d := range dirs {
-			cs = append(cs, h2term.Cell{Kind: "cell", Event: ev, State: "write-blocked", Delay: d})
+	for _, st := range []string{"write-blocked", "client-write-blocked"} {
+		for _, ev := range h2term.Events {
+			for _, d := range dirs {
+				cs = append(cs, h2term.Cell{Kind: "cell", Event: ev, State: st, Delay: d})
+			}
 		}
 	}
 	cs = append(cs,
